@@ -84,7 +84,7 @@ func runC20(ops []string) CaseResult {
 	}
 	checkLogs := func(i int, got []string) {
 		want := expect()
-		if eqStrs(got, want) {
+		if c19EqStrs(got, want) {
 			return
 		}
 		d := 0
@@ -494,10 +494,13 @@ func runC20Conc(ops []string) CaseResult {
 		}
 		res.Outs = append(res.Outs, fmt.Sprintf("ok %d", want))
 		res.Nontrivial = res.Nontrivial || (G >= 2 && perG > 0)
-		if total > logging.BufferSize {
+		switch {
+		case total > logging.BufferSize:
 			res.Tags = append(res.Tags, "total>cap")
-		} else {
-			res.Tags = append(res.Tags, "total<=cap")
+		case total == logging.BufferSize:
+			res.Tags = append(res.Tags, "total=cap")
+		default:
+			res.Tags = append(res.Tags, "total<cap")
 		}
 	}
 	if c20RaceEnabled {
@@ -508,20 +511,18 @@ func runC20Conc(ops []string) CaseResult {
 
 func genC20Conc(r *rand.Rand, tier string, idx int) []string {
 	c := logging.BufferSize
-	pres := []int{0, 1, 10, c / 2, c - 1, c, c + 5}
-	pre := pres[r.Intn(len(pres))]
 	G := 2 + r.Intn(7)
-	var perG int
+	var pre, perG int
 	switch idx % 4 {
-	case 0:
-		perG = 1 + r.Intn(20) // total likely below the capacity
-	case 1:
-		perG = (c-pre)/G + r.Intn(3) - 1 // total around the capacity
-		if perG < 1 {
-			perG = 1
-		}
-	default:
-		perG = 200 + r.Intn(600) // far above
+	case 0: // total below the capacity
+		pre = []int{0, 1, 10, c / 2}[r.Intn(4)]
+		perG = 1 + r.Intn(20)
+	case 1: // total exactly at, one below, one above the capacity
+		perG = 1 + r.Intn(100)
+		pre = c + r.Intn(3) - 1 - G*perG
+	default: // far above
+		pre = []int{0, 1, 10, c / 2, c - 1, c, c + 5}[r.Intn(7)]
+		perG = 200 + r.Intn(600)
 	}
 	return []string{fmt.Sprintf("conc %d %d %d %d", pre, G, perG, 1+r.Intn(3))}
 }
